@@ -1,5 +1,7 @@
 import GoflowModel.Lemmas.CQL
 import GoflowModel.Lemmas.CQLParse
+import GoflowModel.Lemmas.CQLLex
+import GoflowModel.Basic.Tables
 import GoflowModel.Gen.Grammar
 /-!
 # C14 — Contact queries round-trip through text and cannot be injected into
@@ -95,6 +97,56 @@ theorem print_parse_query (env : PEnv) (pr : Char → Bool) (hpr : pr '\n' = fal
   simp only [run] at this
   rw [this]
   simp [hs]
+
+/-- **The printed text lexes to the printed tokens**: for every query whose keys are made of key
+characters (field keys, URN schemes and attribute names are) the text `Stringify` writes is read by
+the lexer — longest match, rule order, keywords, white space — as exactly the tokens of the printer
+model, whatever the values are. -/
+theorem printed_text_lexes (cls : Cls) (ok : ClsOK cls) (pr : Char → Bool) (n : Node) (h : LexOK cls n) :
+    lexAll cls (stringify pr (some n)) = queryToks pr n := lex_stringify ok pr n h
+
+/-- **Round trip through text**: the text of every simplified query, lexed and parsed (and simplified
+as `ParseQuery` does), is the same query — values included, whatever characters they contain: no
+value can end its own token, start another condition or change the grouping. -/
+theorem print_lex_parse_query (env : PEnv) (cls : Cls) (ok : ClsOK cls) (pr : Char → Bool) (hpr : pr '\n' = false)
+    (n : Node) (h : Simp env n) (hl : LexOK cls n) :
+    ∃ f0, ∀ f, f0 ≤ f →
+      (parseExpr env f 0 (lexAll cls (stringify pr (some n)))).map (fun p => (simplify p.1, p.2)) = some (some n, []) := by
+  rw [printed_text_lexes cls ok pr n hl]
+  exact print_parse_query env pr hpr n h
+
+/-- the ASCII letters and digits as character classes meet `ClsOK` (the Unicode classes of the real
+lexer agree with them on ASCII) -/
+def asciiCls : Cls :=
+  ⟨fun c => (decide ('a' ≤ c) && decide (c ≤ 'z')) || (decide ('A' ≤ c) && decide (c ≤ 'Z')), isAsciiDigit⟩
+
+theorem asciiCls_ok : ClsOK asciiCls := by
+  refine ⟨by decide, by decide, by decide, by decide, ?_⟩
+  intro c h
+  refine ⟨h, ?_⟩
+  simp only [isAsciiDigit, decide_eq_true_eq] at h
+  have h1 : ¬ 'a' ≤ c := fun ha => absurd (Char.le_trans ha h.2) (by decide)
+  have h2 : ¬ 'A' ≤ c := fun ha => absurd (Char.le_trans ha h.2) (by decide)
+  simp [asciiCls, h1, h2]
+
+/-- the character classes of the real lexer: `UnicodeLetter` / `UnicodeDigit` of LexUnicode.g4, regenerated
+from the grammar source on every run (the classes the correspondence K:qlex runs the model with) -/
+def grammarCls : Cls :=
+  { letter := fun c => Tables.inRanges Gen.Grammar.antlrLetter c.toNat,
+    digit := fun c => Tables.inRanges Gen.Grammar.antlrDigit c.toNat }
+
+/-- **…and they meet `ClsOK`**, so the two theorems above hold of the lexer as the grammar defines it. -/
+theorem grammarCls_ok : ClsOK grammarCls :=
+  ClsOK.of_finite grammarCls (by decide +kernel) (by decide +kernel) (by decide +kernel) (by decide +kernel) (by decide +kernel)
+
+/-- non-vacuity of the lexing premise, on the query of the next example -/
+example : LexOK asciiCls
+    (.comb true [.cond ⟨.attr, "name".toList, .eq, "Bob".toList⟩,
+      .comb false [.cond ⟨.field, "age".toList, .gt, "10".toList⟩, .cond ⟨.urn, "tel".toList, .contains, "x y".toList⟩],
+      .cond ⟨.attr, "id".toList, .eq, "5".toList⟩]) := by
+  simp only [LexOK, LexOKL, KeyOK, kwFree, ne_eq, reduceCtorEq, not_false_eq_true, true_and, and_true,
+    true_implies, false_implies]
+  refine ⟨⟨by decide, by decide, by decide⟩, ⟨⟨by decide, by decide⟩, by decide, by decide⟩, by decide, by decide, by decide⟩
 
 /-- non-vacuity: `name = "Bob" AND (fields.age > 10 OR urns.tel ~ "x y") AND id = 5` is simplified -/
 example : Simp ⟨fun k => k = "name".toList || k = "id".toList, fun _ => false, fun v => ⟨.attr, "name".toList, .contains, v⟩, id⟩
